@@ -161,6 +161,15 @@ CHECKS['C33'] = (
     'Custom xtriggers shared between tasks and cycles (and per-cycle signatures) with call intervals of 2-5 s: each call is a fake process whose result (False with a budget, or True) and completion time are chosen by the explorer, with clock jumps to every next-call deadline. Per signature the monitor checks at most one call in progress, consecutive calls (queue times) at least the interval apart, no call after a success while a pooled task still needs it, and in quiescent states every dependent of a succeeded signature is satisfied.',
     A_NOTE)
 
+CHECKS['C10'] = (
+    'schedmc', 'model_checking', A_TECH + '; iterative deviation bounding (budget 0..2) of message-delivery deviations', '6/C10',
+    'Exploration of the real Scheduler under message-delivery deviations (held, reordered, lost, duplicated or stale-submit-number messages, early start, late poll results, extra polls, batched messages) for 1-2 tasks with 0-1 retries. Oracle over environment ground truth: a message from an older submit is inert; a received message that would move status backwards causes a poll and no change; in every settled/terminal state status and outputs equal the latest job\'s real outcome; poll timers really poll.',
+    A_NOTE)
+CHECKS['C09'] = (
+    'schedmc', 'model_checking', A_TECH, '6/C09',
+    'Same space as C10 plus submission retries and submit failures. A lifecycle automaton written from the statement is applied to every TaskState.reset of pooled proxies (retries justified by ground truth), outputs must be monotone at every funnel event and boundary, and succeeded|failed complete implies submitted and started complete.',
+    A_NOTE + ' One known finding (a stale poll result moves a finished task back to running) is tolerated so that exploration continues behind it.')
+
 NOT_BUILT_REASON = (
     'check not built yet in this session (designed in DESIGN.md section 6); '
     'no verdict is claimed')
